@@ -150,11 +150,31 @@ def masters(ctx):
     return out
 
 
+def leading_zero_index(master, app_path, start=2):
+    """smallest index >= start whose fully hardened BIP85 path key has a leading 0x00 byte (found with the reference)"""
+    _, node = hd.parse_xkey(master["xkey"])
+    base = hd.derive(node, [H + p for p in [hd.BIP85_ROOT] + app_path])
+    i = start
+    while True:
+        if hd.ckd_priv(base, H + i).k < 2**248:
+            return i
+        i += 1
+
+
 def run(ctx):
     ms = masters(ctx)
     r = ctx.rng("idx")
     idxs = [0, 1, H - 1, r.randrange(2, H - 1)]
     cases = [{"k": "sweep", "master": m, "index": i} for m in ms for i in idxs]
+    # boundary class "derived key with a leading zero byte" (the HMAC input is that key): one index per application family
+    lz = []
+    for m in ms[:2]:
+        lz.append({"k": "one", "master": m, "app": "wif", "param": None, "index": leading_zero_index(m, [2])})
+        lz.append({"k": "one", "master": m, "app": "xprv", "param": None, "index": leading_zero_index(m, [32])})
+        lz.append({"k": "one", "master": m, "app": "hex", "param": 32, "index": leading_zero_index(m, [128169, 32])})
+        lz.append({"k": "one", "master": m, "app": "pwd", "param": 21, "index": leading_zero_index(m, [707764, 21])})
+        lz.append({"k": "one", "master": m, "app": "mnemonic", "param": 12, "index": leading_zero_index(m, [39, 0, 12])})
+    ctx.product("leading-zero-path-keys", lz, execute)
     agg = ctx.product("all-parameters", cases, execute, chunk=1)
     # distinctness across indexes within one master
     per_master = {}
